@@ -19,7 +19,7 @@ def statement(renamed, same_str, enforce_new, new_ovr, old_ovr, new_cs, old_cs, 
     ('or', new, old) marker"""
     if new_ovr:
         return 'role:ovr'
-    if renamed and old_ovr in ('arbitrary',):
+    if renamed and old_ovr in ('arbitrary', 'prefixref'):
         return ovr_old_value
     if (not enforce_new) and new_cs != old_cs:
         return ('or', new_cs, old_cs)
@@ -36,10 +36,12 @@ def run(run, binfo):
             pairs.append((render_expr(rng, leaves, rng.randint(1, 5)), render_expr(rng, leaves, rng.randint(1, 5))))
     rows = []
     for renamed, same_str, enforce_new, new_ovr, old_ovr, where, shared in itertools.product(
-            [True, False], [True, False], [True, False], [False, True], ['absent', 'arbitrary', 'alias'],
-            ['main', 'dir', 'both'], [False, True]):
+            [True, False], [True, False], [True, False], [False, True], ['absent', 'arbitrary', 'alias', 'prefixref'],
+            ['main', 'dir', 'both'], [0, 1, 2]):
         if not renamed and old_ovr != 'absent':
             continue        # same-name deprecation: an "old name" override IS a new-name override
+        if shared == 2 and not (renamed and old_ovr == 'absent'):
+            continue        # 2: the old name is itself a registered policy with a same-name deprecation, registered first
         rows.append((renamed, same_str, enforce_new, new_ovr, old_ovr, where, shared))
     bad_corr = []
     nrows = 0
@@ -51,8 +53,12 @@ def run(run, binfo):
             new_name = 'svc:new'
             old_name = 'svc:old' if renamed else new_name
             defaults = [(new_name, new_cs, (old_name, old_cs), None), ('helper', 'role:r1', None, None)]
-            if shared:
+            if shared == 1:
                 defaults.append(('svc:new2', new_cs, (old_name, old_cs), None))
+            elif shared == 2:
+                defaults.insert(0, (old_name, 'role:r2 or role:new', (old_name, old_cs), None))
+            if old_ovr == 'prefixref':
+                defaults.append((new_name + ':forced', 'role:r2', None, None))
             files = {}
             ovr_old_value = 'role:ovr_old'
             if new_ovr:
@@ -61,6 +67,10 @@ def run(run, binfo):
                 files[old_name] = ovr_old_value
             elif old_ovr == 'alias':
                 files[old_name] = 'rule:' + new_name
+            elif old_ovr == 'prefixref':
+                # a reference to a DIFFERENT rule whose name merely begins with the new name: a real override
+                ovr_old_value = 'rule:' + new_name + ':forced'
+                files[old_name] = ovr_old_value
             shutil.rmtree(root, ignore_errors=True)
             os.makedirs(root)
             fs = FsSim(root)
@@ -87,7 +97,7 @@ def run(run, binfo):
             mod = model_history([enforce_new, enc_defaults(defaults), 1], [[fs.wire(), 0]])[0]
             if mod != obs:
                 bad_corr.append((repr(row) + repr((new_cs, old_cs)), mod, obs))
-            names = [new_name] + (['svc:new2'] if shared else [])
+            names = [new_name] + (['svc:new2'] if shared == 1 else [])
             spec = run_batch([[11, [enforce_new, enc_defaults(defaults), 1], fs.wire(), [S(n) for n in names]]])[0]
             for n, sp in zip(names, spec):
                 want_s = unS(sp[0]) if sp else None
@@ -103,7 +113,7 @@ def run(run, binfo):
                 pass
             gov = statement(renamed, same_str, enforce_new, new_ovr and True, old_ovr, new_cs, old_cs, ovr_old_value)
             from oslo_policy import policy
-            ref_rules = {'helper': 'role:r1'}
+            ref_rules = {'helper': 'role:r1', new_name + ':forced': 'role:r2'}
             if isinstance(gov, tuple):
                 ref_rules['x'] = '(%s) or (%s)' % (gov[1], gov[2])
             else:
